@@ -23,15 +23,17 @@ ASSUMPTIONS = [
     "billing: the alteration is applied to the billed amounts; a NaN read removes its period's usage",
 ]
 
-FAMILIES = ["daily", "billing", "hourly", "hourly_solar", "caltrack"]
-SETS = [("week", "2022-07-04", 7), ("dst_month", "2022-03-01", 31), ("year", "2022-01-01", 365)]
+FAMILIES = ["daily", "billing", "hourly", "hourly_solar", "caltrack", "hourly_satgap"]
+# hourly_satgap: the hourly family fitted on a baseline with a 14-hour outage on every Saturday of February: every (month, weekday)
+# combination is present and metered and nothing is disqualified, but those four days fall below min_daily_training_hours
+SETS = [("week", "2022-07-04", 7), ("dst_month", "2022-03-01", 31), ("year", "2022-01-01", 365), ("feb", "2022-02-01", 28)]
 
 
 def alterations(n, family):
     """name -> function(values ndarray) -> ndarray or None (= column absent)"""
     rng = np.random.default_rng(12345)
     perm = rng.permutation(n)
-    unit = 24 if family in ("hourly", "hourly_solar", "caltrack") else 1
+    unit = 24 if family in ("hourly", "hourly_solar", "caltrack", "hourly_satgap") else 1
     runs = [1, 6, 24, 48] if unit == 24 else [1, 3, 10]
 
     def nan_run(length):
@@ -68,7 +70,9 @@ def build_reporting(family, start, days, values_fn, variant="plain"):
     at 06:00 local, hourly temperature feed, through from_series)"""
     import opendsm.eemeter as em
 
-    fam = family
+    fam = "hourly" if family == "hourly_satgap" else family
+    if variant == "dup_rows":
+        return _dup_rows(fam, start, days, values_fn)
     if fam == "daily" and variant == "six_am_hourly_feed":
         idx = (pd.date_range(pd.Timestamp(start) + pd.Timedelta(hours=6), periods=days, freq="D")).tz_localize(ZONE)
         base = 20.0 + 3.0 * np.sin(np.arange(days) / 5.0) + np.arange(days) % 7
@@ -117,13 +121,48 @@ def build_reporting(family, start, days, values_fn, variant="plain"):
     return em.HourlyReportingData(fr, is_electricity_data=True)
 
 
+def _dup_rows(fam, start, days, values_fn):
+    """two overlapping exports concatenated: rows 1/3..1/2 of the frame appear twice, the second copy with re-issued weather
+    (+5 F) and the ORIGINAL usage; the alteration is applied to the first copy.  The first row of a timestamp counts."""
+    import opendsm.eemeter as em
+
+    if fam == "daily":
+        fr = ds.daily_frame(start=start, days=days, tz=ZONE, wseed=1, seed=11, noise=0.05)
+    else:
+        fr = ds.hourly_frame(start=start, days=days, tz=ZONE, wseed=1, seed=11, solar=fam == "hourly_solar")
+    base_obs = fr["observed"].to_numpy().copy()
+    v = values_fn(base_obs)
+    first = fr.copy()
+    if v is None:
+        first = first.drop(columns=["observed"])
+    else:
+        first["observed"] = v
+    n = len(fr)
+    second = fr.iloc[n // 3: n // 2].copy()
+    second["temperature"] = second["temperature"] + 5.0
+    if v is None:
+        second = second.drop(columns=["observed"])
+    frame = pd.concat([first, second])
+    if fam == "daily":
+        return em.DailyReportingData(frame, is_electricity_data=True)
+    return em.HourlyReportingData(frame, is_electricity_data=True)
+
+
 _FIT = {}
 
 
 def fitted(family):
     if family not in _FIT:
-        frame = c02.baseline_frame(family, 365, seed=0)
-        _FIT[family] = c02.fit(family, c02.new_model(family), c02.make_baseline(family, frame))
+        base = "hourly" if family == "hourly_satgap" else family
+        frame = c02.baseline_frame(base, 365, seed=0)
+        if family == "hourly_satgap":
+            idx = frame.index
+            sel = (idx.month == 2) & (idx.dayofweek == 5) & (idx.hour >= 5) & (idx.hour < 19)
+            frame.loc[sel, "observed"] = np.nan
+        data = c02.make_baseline(base, frame)
+        if family == "hourly_satgap" and data.disqualification:
+            raise RuntimeError(f"driver: the Saturday-outage baseline is disqualified: {[w.qualified_name for w in data.disqualification]}")
+        _FIT[family] = c02.fit(base, c02.new_model(base), data)
     return _FIT[family]
 
 
@@ -140,11 +179,14 @@ def run_case(case):
     variant = case.get("variant", "plain")
     sname = sname if variant == "plain" else f"{sname}/{variant}"
     model = fitted(family)
+    family_pred = "hourly" if family == "hourly_satgap" else family
     viol = []
     key0 = {"family": family}
     # number of usage values
     if family in ("daily",):
         n = days
+    elif family == "hourly_satgap":
+        n = len(ds.local_hours(start, days, ZONE))
     elif family == "billing":
         n = 1 if days < 28 else len(range(0, days - 24, 30))
     else:
@@ -170,7 +212,7 @@ def run_case(case):
                 rejected_alts.append(f"{name}: {type(exc).__name__}: {str(exc)[:80]}")
             continue
         try:
-            p = c02.predict(family, model, data)
+            p = c02.predict(family_pred, model, data)
             pred = p["predicted"]
         except Exception as exc:
             if name == "identity":
@@ -184,13 +226,13 @@ def run_case(case):
         if name == "identity":
             ref = pred
             beh.append((name, int(np.isfinite(pred.to_numpy(float)).sum())))
-            if family in ("hourly", "hourly_solar", "caltrack") and not np.isfinite(pred.to_numpy(float)).all():
+            if family in ("hourly", "hourly_solar", "caltrack", "hourly_satgap") and not np.isfinite(pred.to_numpy(float)).all():
                 viol.append({"clause": "hourly_row_unpredicted", "key": key0, "detail": f"{sname}: identity run leaves rows unpredicted"})
             continue
         a, b = ref.align(pred, join="inner")
         both = np.isfinite(a.to_numpy(float)) & np.isfinite(b.to_numpy(float))
         compared += int(both.sum())
-        if family in ("hourly", "hourly_solar", "caltrack"):
+        if family in ("hourly", "hourly_solar", "caltrack", "hourly_satgap"):
             if len(pred) != len(ref) or not np.isfinite(pred.to_numpy(float)).all():
                 viol.append({"clause": "hourly_row_unpredicted", "key": dict(key0, alt=name),
                              "detail": f"{sname}/{name}: {len(pred)} rows, {int((~np.isfinite(pred.to_numpy(float))).sum())} not finite (identity: {len(ref)} rows)"})
@@ -212,6 +254,12 @@ def cases(tier):
         for sname, _, _ in SETS:
             if tier == "quick" and f == "caltrack" and sname == "year":
                 continue
+            if sname == "feb" and f != "hourly_satgap":
+                continue
+            if f == "hourly_satgap" and sname not in ("feb", "year"):
+                continue
+            if f in ("daily", "hourly") and sname == "dst_month":
+                out.append({"family": f, "set": sname, "variant": "dup_rows"})
             out.append({"family": f, "set": sname})
             if f in ("hourly", "hourly_solar") and sname != "year":
                 out.append({"family": f, "set": sname, "variant": "weather_gaps"})
